@@ -333,3 +333,100 @@ func lowerFirst(s string) string {
 	}
 	return strings.ToLower(s[:1]) + s[1:]
 }
+
+// ---- inlining of float-valued temporaries ---------------------------------------------------------
+//
+// `ratio := float64(a) / float64(b); idx := int(math.Ceil(math.Log2(ratio)))` means the same as the
+// one-line form.  The translated subset has no float type, so single-definition temporaries whose
+// right-hand side involves float64(…) / math.* are substituted into their uses before translation.
+
+func mentionsFloat(e ast.Expr) bool {
+	found := false
+	ast.Inspect(e, func(n ast.Node) bool {
+		if c, ok := n.(*ast.CallExpr); ok {
+			fn := selString(c.Fun)
+			if fn == "float64" || fn == "float32" || strings.HasPrefix(fn, "math.") {
+				found = true
+			}
+		}
+		return true
+	})
+	return found
+}
+
+func substExpr(e ast.Expr, sub map[string]ast.Expr) ast.Expr {
+	switch t := e.(type) {
+	case *ast.Ident:
+		if r, ok := sub[t.Name]; ok {
+			return &ast.ParenExpr{X: r}
+		}
+		return t
+	case *ast.ParenExpr:
+		return &ast.ParenExpr{X: substExpr(t.X, sub)}
+	case *ast.BinaryExpr:
+		return &ast.BinaryExpr{X: substExpr(t.X, sub), Op: t.Op, Y: substExpr(t.Y, sub)}
+	case *ast.UnaryExpr:
+		return &ast.UnaryExpr{Op: t.Op, X: substExpr(t.X, sub)}
+	case *ast.CallExpr:
+		args := make([]ast.Expr, len(t.Args))
+		for i, a := range t.Args {
+			args[i] = substExpr(a, sub)
+		}
+		return &ast.CallExpr{Fun: t.Fun, Args: args}
+	case *ast.IndexExpr:
+		return &ast.IndexExpr{X: substExpr(t.X, sub), Index: substExpr(t.Index, sub)}
+	}
+	return e
+}
+
+func substStmt(s ast.Stmt, sub map[string]ast.Expr) ast.Stmt {
+	switch t := s.(type) {
+	case *ast.AssignStmt:
+		rhs := make([]ast.Expr, len(t.Rhs))
+		for i, r := range t.Rhs {
+			rhs[i] = substExpr(r, sub)
+		}
+		return &ast.AssignStmt{Lhs: t.Lhs, Tok: t.Tok, Rhs: rhs}
+	case *ast.ExprStmt:
+		return &ast.ExprStmt{X: substExpr(t.X, sub)}
+	case *ast.ReturnStmt:
+		res := make([]ast.Expr, len(t.Results))
+		for i, r := range t.Results {
+			res[i] = substExpr(r, sub)
+		}
+		return &ast.ReturnStmt{Results: res}
+	case *ast.IfStmt:
+		n := &ast.IfStmt{Init: t.Init, Cond: substExpr(t.Cond, sub), Body: &ast.BlockStmt{List: inlineFloatTempsWith(t.Body.List, sub)}}
+		if t.Else != nil {
+			n.Else = substStmt(t.Else, sub)
+		}
+		return n
+	case *ast.BlockStmt:
+		return &ast.BlockStmt{List: inlineFloatTempsWith(t.List, sub)}
+	}
+	return s
+}
+
+func inlineFloatTempsWith(list []ast.Stmt, sub map[string]ast.Expr) []ast.Stmt {
+	var out []ast.Stmt
+	for _, s := range list {
+		if as, ok := s.(*ast.AssignStmt); ok && as.Tok == token.DEFINE && len(as.Lhs) == 1 && len(as.Rhs) == 1 {
+			if id, ok := as.Lhs[0].(*ast.Ident); ok {
+				rhs := substExpr(as.Rhs[0], sub)
+				// a float temporary: its value is a float expression that is not converted back
+				if mentionsFloat(rhs) {
+					if c, isCall := rhs.(*ast.CallExpr); !isCall || selString(c.Fun) != "int" {
+						sub[id.Name] = rhs
+						continue
+					}
+				}
+			}
+		}
+		out = append(out, substStmt(s, sub))
+	}
+	return out
+}
+
+func inlineFloatTemps(list []ast.Stmt) []ast.Stmt {
+	return inlineFloatTempsWith(list, map[string]ast.Expr{})
+}
